@@ -185,3 +185,9 @@ package reconciler
 //@   lemma tcp:    key != w.cfg.ConfigMapName && key == w.cfg.TCPConfigMapName ==> w.ch.TCPConfigMapDataNew == cm.Data && w.ch.GlobalConfigMapDataNew == old(w.ch.GlobalConfigMapDataNew)
 //@   lemma other:  key != w.cfg.ConfigMapName && key != w.cfg.TCPConfigMapName ==> w.ch.TCPConfigMapDataNew == old(w.ch.TCPConfigMapDataNew) && w.ch.GlobalConfigMapDataNew == old(w.ch.GlobalConfigMapDataNew)
 //@ end
+
+// C14 — an update event of a ConfigMap records the content of the new object
+//@ func (*watchers).handlersCore$2
+//@   props C14
+//@   at call captured.cmChange#1 assert new-object: $arg0 == new
+//@ end
